@@ -139,6 +139,8 @@ func checkC07(c *Ctx) {
 	c07Siblings(c)
 	c07Names(c)
 	c07ServerInputs(c, "R07e")
+	r.Rule("R07h", "every JSON arm of the Go server's response encoder consults the message's own codec first: the declared (annotated) TypeScript type is what is on the wire whatever the request's content type (shared with C06/R06f)", 2)
+	codecPrecedence(c, "R07h", false)
 	c07Presence(c)
 }
 
